@@ -88,7 +88,7 @@ func (pw *packetWriter) Write(p []byte) (n int, err error) {
 func (pw *packetWriter) ReadFrom(r io.Reader) (n int64, err error) {
 	buf := pw.pkt[:]
 	for {
-		nr, er := r.Read(buf)
+		nr, er := io.ReadFull(r, buf)
 		if nr == PacketSize {
 			nw, ew := pw.WritePacket(&pw.pkt)
 			if nw > 0 {
@@ -106,7 +106,9 @@ func (pw *packetWriter) ReadFrom(r io.Reader) (n int64, err error) {
 			err = gots.ErrInvalidPacketLength
 		}
 		if er != nil {
-			if er != io.EOF {
+			// io.ReadFull reports a stream that ends inside a packet as
+			// io.ErrUnexpectedEOF; that case is ErrInvalidPacketLength (set above)
+			if er != io.EOF && !(er == io.ErrUnexpectedEOF && nr > 0) {
 				err = er
 			}
 			break
